@@ -318,6 +318,9 @@ def generate(spec):
     c_ = base_case(clients, sched, pre=pre, stop=stop, adapter=adapter)
     if adapter and pre >= 1 and mode not in ("directed", "overtake", "overtake2", "sweep") and rng.random() < 0.4:
         c_["config"]["restore_before"] = True
+    if derive_seed(spec["seed"], "grid", 0) % 5 == 0:
+        # (round 14) a start time finer than the step: the session clock is start + k*dt, not a multiple of dt
+        c_["config"]["model"]["start"] = 0.5
     return c_
 
 
